@@ -9,29 +9,30 @@ import (
 // genState is what the online generator has observed so far; ids come from the
 // implementation's own answers so that histories stay mostly valid.
 type genState struct {
-	rng       *hcommon.RNG
-	prop      string
-	nextKey   int
-	live      []int         // attached session keys
-	nextReq   map[int]int   // per session request counter
-	subs      map[int][]int // session -> subscription ids it holds
-	regs      map[int][]int // session -> registration ids it holds
-	invs      map[int][]int // callee -> pending invocation ids
-	calls     map[int][]int // caller -> pending call request ids
-	allSubs   []int
-	allRegs   []int
-	features  map[int]map[string][]string
-	metaReq   map[string]bool
-	cfg       map[string]any
-	realms    []string       // realm names (multi-realm histories)
-	realmOf   map[int]string // session -> realm
-	stalled   map[int]bool
-	usedMeta  map[int]bool   // sessions that called a wamp.* procedure (never stalled: known finding F19)
-	regPolicy map[string]any // policy first used for a procedure
-	pubsSeen  []int          // one entry per PUBLISHED observed ({"$pub": j} refers to the j-th)
-	regProcs  []string       // procedures somebody tried to register (calls aim at them)
-	subTopics []string       // topics somebody tried to subscribe to exactly (publications aim at them)
-	smallCap  map[int]bool   // sessions with a tiny queue: they never subscribe (which of several events of one
+	rng          *hcommon.RNG
+	prop         string
+	nextKey      int
+	live         []int         // attached session keys
+	nextReq      map[int]int   // per session request counter
+	subs         map[int][]int // session -> subscription ids it holds
+	regs         map[int][]int // session -> registration ids it holds
+	invs         map[int][]int // callee -> pending invocation ids
+	calls        map[int][]int // caller -> pending call request ids
+	allSubs      []int
+	allRegs      []int
+	features     map[int]map[string][]string
+	metaReq      map[string]bool
+	cfg          map[string]any
+	realms       []string       // realm names (multi-realm histories)
+	realmOf      map[int]string // session -> realm
+	stalled      map[int]bool
+	usedMeta     map[int]bool   // sessions that called a wamp.* procedure (never stalled: known finding F19)
+	regPolicy    map[string]any // policy first used for a procedure
+	viaTransport map[int]bool   // sessions attached through rawsocket/websocket (never stalled)
+	pubsSeen     []int          // one entry per PUBLISHED observed ({"$pub": j} refers to the j-th)
+	regProcs     []string       // procedures somebody tried to register (calls aim at them)
+	subTopics    []string       // topics somebody tried to subscribe to exactly (publications aim at them)
+	smallCap     map[int]bool   // sessions with a tiny queue: they never subscribe (which of several events of one
 	// action overflows depends on Go map iteration order)
 	closed bool
 }
@@ -56,7 +57,7 @@ var roleFeatures = map[string][]string{
 func newGen(rng *hcommon.RNG, prop string) *genState {
 	return &genState{rng: rng, prop: prop, nextKey: 1, nextReq: map[int]int{}, subs: map[int][]int{}, regs: map[int][]int{},
 		invs: map[int][]int{}, calls: map[int][]int{}, features: map[int]map[string][]string{}, metaReq: map[string]bool{},
-		realmOf: map[int]string{}, stalled: map[int]bool{}, usedMeta: map[int]bool{}, smallCap: map[int]bool{}, regPolicy: map[string]any{}}
+		realmOf: map[int]string{}, stalled: map[int]bool{}, usedMeta: map[int]bool{}, smallCap: map[int]bool{}, regPolicy: map[string]any{}, viaTransport: map[int]bool{}}
 }
 
 func (g *genState) config() map[string]any {
@@ -130,6 +131,9 @@ func (g *genState) joinOp() map[string]any {
 	k := g.nextKey
 	g.nextKey++
 	local := r.Chance(3, 5)
+	if g.prop == "C15" {
+		local = r.Chance(1, 4)
+	}
 	roles := map[string]any{}
 	feats := map[string][]string{}
 	helloRoles := map[string]any{}
@@ -200,11 +204,16 @@ func (g *genState) joinOp() map[string]any {
 	}
 	g.realmOf[k] = realm
 	capacity := 64
-	if g.prop == "C07" && r.Chance(1, 2) {
+	if (g.prop == "C07" || g.prop == "C10") && r.Chance(1, 2) {
 		capacity = 1 + r.Intn(3)
 		g.smallCap[k] = true
 	}
 	op := map[string]any{"op": "join", "s": k, "realm": realm, "local": local, "hello": hello, "details": details, "roles": roles, "cap": capacity}
+	if !local && capacity == 64 && (g.prop == "C15" || r.Chance(1, 8)) {
+		// attach through a real transport and serializer (transport transparency, C15)
+		op["via"] = hcommon.Pick(r, []string{"rawsocket", "websocket"}) + ":" + hcommon.Pick(r, []string{"json", "msgpack", "cbor"})
+		g.viaTransport[k] = true
+	}
 	if transport != nil {
 		op["transport"] = transport
 	}
@@ -381,13 +390,13 @@ func (g *genState) next() map[string]any {
 		}
 		return op
 	}
-	if g.prop == "C07" && r.Chance(1, 8) {
+	if (g.prop == "C07" || g.prop == "C10") && r.Chance(1, 8) {
 		// stall or resume a session (never one that used the meta API: F19)
 		if g.stalled[k] {
 			g.stalled[k] = false
 			return map[string]any{"op": "resume", "s": k}
 		}
-		if !g.usedMeta[k] {
+		if !g.usedMeta[k] && !g.viaTransport[k] {
 			g.stalled[k] = true
 			return map[string]any{"op": "stall", "s": k}
 		}
@@ -546,7 +555,7 @@ func (g *genState) next() map[string]any {
 		}
 		return map[string]any{"op": "msg", "s": k, "m": []any{49, pickInt(r, g.calls[k], 1+r.Intn(6)), g.hostile(o)}}
 	case w < 92: // meta procedure call
-		if g.stalled[k] {
+		if g.stalled[k] || g.smallCap[k] {
 			return map[string]any{"op": "tick", "ms": hcommon.Pick(r, []int{1, 2, 4, 1000})}
 		}
 		g.usedMeta[k] = true
